@@ -45,6 +45,14 @@ impl Rx {
             _ => false,
         }
     }
+    pub fn has_and(&self) -> bool {
+        match self {
+            Rx::And(_) => true,
+            Rx::Not(x) | Rx::RawNot(x) | Rx::Rep(x, _, _) | Rx::CaseI(x) => x.has_and(),
+            Rx::Cat(v) | Rx::Alt(v) => v.iter().any(|x| x.has_and()),
+            _ => false,
+        }
+    }
     pub fn has_raw_not(&self) -> bool {
         match self {
             Rx::RawNot(_) => true,
